@@ -12,6 +12,8 @@ from ..sym import A, C, CALL, N, Sym, calls, contains, dotted, show, walk
 from .presence import INCL, SELF
 
 SCALAR_TYPES = [t for t in TYPE_NAMES if t not in ("message", "map")]
+# kinds for which a google.protobuf wrapper message exists
+WRAPPED_KINDS = ["bool", "int32", "int64", "uint32", "uint64", "float", "double", "string", "bytes"]
 
 # proto3 JSON mapping: which transform class each kind needs
 def spec_class(t: str) -> str:
@@ -57,6 +59,18 @@ def _small_helpers(mod, fn, known: Dict[str, str]) -> Dict[str, Any]:
     return out
 
 
+def _decides_wellknown(val: Dict[Sym, bool]) -> bool:
+    """the path took a branch reserved for Timestamp / Duration values: isinstance(x, datetime|timedelta) or cls == datetime|timedelta"""
+    for k, v in val.items():
+        if not v:
+            continue
+        if k[0] == "call" and k[1] == N("isinstance") and len(k[2]) == 2 and k[2][1] in (N("datetime"), N("timedelta")):
+            return True
+        if k[0] == "op" and k[1] == "==" and len(k) == 4 and (k[2] in (N("datetime"), N("timedelta")) or k[3] in (N("datetime"), N("timedelta"))):
+            return True
+    return False
+
+
 def _to_dict_classes(ctx, mod, t: str, shape: str) -> Tuple[Set[str], int]:
     """transform classes on the data path into output[...] for (type, shape)"""
     fn = mod.func("Message.to_dict")
@@ -88,6 +102,9 @@ def _to_dict_classes(ctx, mod, t: str, shape: str) -> Tuple[Set[str], int]:
             continue
         # only message values have a to_dict method
         if any(k[0] == "call" and k[1] == N("hasattr") and k[2][1] == C("to_dict") and v != (t == "message") for k, v in p.valuation.items()):
+            continue
+        # only message-typed elements can be datetime / timedelta values (Timestamp / Duration)
+        if t != "message" and _decides_wellknown(p.valuation):
             continue
         path_classes: Set[str] = set()
         stored = False
@@ -166,12 +183,14 @@ def _from_dict_classes(ctx, mod, t: str, shape: str) -> Set[str]:
         return None
 
     al[CALL(N("safe_snake_case"), N("$key"))] = N("$fname")
-    i = Interp(mod, bindings=b, aliases=al, loop_roles=roles, assume=assume, fork_ifexp=True)
+    i = Interp(mod, bindings=b, aliases=al, loop_roles=roles, assume=assume, fork_ifexp=True, inline=_small_helpers(mod, fn, DEC_CLASSES))
     paths = i.run(fn)
     ctx.count(len(paths))
     classes: Set[str] = set()
     for p in paths:
         if p.outcome == "raise" or any(k[0] == "raises" and v for k, v in p.valuation.items()):
+            continue
+        if t != "message" and _decides_wellknown(p.valuation):
             continue
         for e in p.events:
             if e.kind == "store" and e.data[0][0] == "sub" and e.data[0][2] == N("$fname"):
@@ -189,8 +208,10 @@ def rule_J2(ctx) -> None:
     ctx.analysed("Message._from_dict_init")
     fd = mod.func("Message._from_dict_init")
     n = 0
-    for shape in ("singular", "repeated", "map-value"):
+    for shape in ("singular", "repeated", "map-value", "wrapped"):
         for t in SCALAR_TYPES + ["message"]:
+            if shape == "wrapped" and t not in WRAPPED_KINDS:
+                continue
             enc, _ = _to_dict_classes(ctx, mod, t, shape)
             dec = _from_dict_classes(ctx, mod, t, shape)
             n += 1
@@ -208,7 +229,77 @@ def rule_J2(ctx) -> None:
                 ctx.refuted("J2", name, f"enc={','.join(sorted(enc))};dec={','.join(sorted(dec))}", mod.loc(fd),
                             f"to_dict encodes a {shape} {t} through {sorted(enc)} but _from_dict_init decodes it through {sorted(dec)}: the two directions are not inverse",
                             f"M.from_dict(M(x=...).to_dict()) with a {shape} {t}")
-    ctx.floor("J2", "type x shape", n, 45)
+    ctx.floor("J2", "type x shape", n, 54)
+
+
+# proto3: map keys are any integral or string type (no floats, bytes, enums, messages)
+MAP_KEY_KINDS = ["int32", "int64", "uint32", "uint64", "sint32", "sint64", "fixed32", "fixed64", "sfixed32", "sfixed64", "bool", "string"]
+
+
+def _key_exprs(v: Sym) -> List[Sym]:
+    """key expressions of the (possibly nested) dict comprehensions that build v, outermost first"""
+    out: List[Sym] = []
+    def rec(t: Sym):
+        if isinstance(t, tuple) and t and t[0] == "call" and t[1] == N("$dictcomp") and len(t[2]) >= 2:
+            kv = t[2][0]
+            if isinstance(kv, tuple) and kv and kv[0] == "tuple" and len(kv[1]) == 2:
+                out.append(kv[1][0])
+            for a in t[2][1:]:
+                rec(a)
+        elif isinstance(t, tuple):
+            for x in t:
+                if isinstance(x, tuple):
+                    rec(x)
+    rec(v)
+    return out
+
+
+def rule_J6(ctx, rule: str = "J6") -> None:
+    """JSON object keys are text: _from_dict_init must turn the keys of a map back into the declared key kind
+    (int(...) for the integral kinds, a comparison with 'true' for bool, unchanged for string)"""
+    mod = ctx.repo.mod(M_INIT)
+    fn = mod.func("Message._from_dict_init")
+    value = N("$jvalue")
+    n = 0
+    for kt in MAP_KEY_KINDS:
+        b = {A(META, "proto_type"): "map", A(META, "map_types"): (kt, "string")}
+        paths = _fdi_interp(mod, bindings=b, assume={("op", "is", value, C(None)): False}, fork_ifexp=True,
+                            inline=_small_helpers(mod, fn, DEC_CLASSES)).run(fn)
+        ctx.count(len(paths))
+        got: Set[str] = set()
+        seen = 0
+        for p in paths:
+            if p.outcome == "raise" or any(k[0] == "raises" and v for k, v in p.valuation.items()) or _decides_wellknown(p.valuation):
+                continue
+            for e in p.events:
+                if e.kind == "store" and e.data[0][0] == "sub" and e.data[0][2] == N("$fname"):
+                    seen += 1
+                    v = e.data[1]
+                    # the incoming key is text on this path unless the path decided otherwise
+                    text_key = not any(k[0] == "call" and k[1] == N("isinstance") and k[2][1] == N("str") and not val for k, val in p.valuation.items())
+                    if not text_key:
+                        continue
+                    cls = "identity"
+                    for ke in _key_exprs(v):
+                        if any(dotted(c[1]) == "int" for c in calls(ke)):
+                            cls = "int"
+                        elif any(t_[0] == "op" and t_[1] == "==" and (C("true") in t_[2:]) for t_ in walk(ke)) or \
+                                any(t_[0] == "op" and t_[1] == "in" and t_[3][0] == "c" and isinstance(t_[3][1], (tuple, list, set, frozenset)) and "true" in t_[3][1] for t_ in walk(ke)):
+                            cls = "bool"
+                    got.add(cls)
+        n += 1
+        name = f"from_dict[map-key:{kt}]"
+        want = "identity" if kt == "string" else ("bool" if kt == "bool" else "int")
+        if not seen:
+            ctx.inconclusive(rule, name, "no store of a decoded map found", mod.loc(fn))
+        elif got == {want}:
+            ctx.proved(rule, name, mod.loc(fn), want)
+        else:
+            ctx.refuted(rule, name, f"got={','.join(sorted(got))};want={want}", mod.loc(fn),
+                        f"the keys of a map<{kt}, ...> read from JSON are decoded through {sorted(got)}; JSON object keys are always text, so they must be turned back into "
+                        f"{'bool' if kt == 'bool' else 'int'} values or the map compares unequal to the original and cannot be encoded",
+                        f"M().from_json(M(m={{1: 'x'}}).to_json()) for a map<{kt},string>")
+    ctx.floor(rule, "map key kinds", n, 12)
 
 
 def rule_K1(ctx) -> None:
